@@ -59,6 +59,33 @@ def receiver (E : BlockCipher) (reg : Registry) (lp : LinkParams) (encKey appKey
     | _ => .notData
   | _ => .decErr
 
+/-- the receiver, taking the frame for the opposite direction when `other` is set (a device that validates what it hears with the
+downlink function whatever the MType says, and the reverse); `receiverDir false = receiver` -/
+def receiverDir (other : Bool) (E : BlockCipher) (reg : Registry) (lp : LinkParams) (encKey appKey : Bytes) (fcntHi : BitVec 32) (bs : Bytes) : RxResult :=
+  match PHY.dec bs with
+  | .ok q =>
+    match q.payload with
+    | some (.mac h fPort frm) =>
+      let h' := { h with fCnt := fcntHi ||| (h.fCnt &&& 0xffff#32) }
+      let q := { q with payload := some (.mac h' fPort frm) }
+      let v := if isUpData q.mtype != other then validateMIC q (calcUplinkDataMIC E lp.ver lp.conf lp.txDr lp.txCh lp.fKey lp.sKey q)
+               else validateMIC q (calcDownlinkDataMIC E lp.ver lp.conf lp.sKey q)
+      match v with
+      | .ok true =>
+        match (if lp.ver != 0 then q.decryptFOpts E reg encKey else q.decodeFOpts reg) with
+        | .ok q2 =>
+          match q2.decryptFRM E reg (frmKeyOf fPort encKey appKey) with
+          | .ok q3 => .accepted q3
+          | _ => .acceptedFrmErr
+        | _ => .acceptedFOptsErr
+      | .ok false => .rejected
+      | _ => .valErr
+    | _ => .notData
+  | _ => .decErr
+
+/-- tamper codes from 2^40 on: nothing is corrupted, the receiver assumes the other direction -/
+def otherDirOf (t : Nat) : Bool := decide (2 ^ 40 ≤ t)
+
 def flipBit (bs : Bytes) (bit : Nat) : Bytes :=
   bs.set (bit / 8) ((bs.getD (bit / 8) 0) ^^^ byteOfNat (2 ^ (bit % 8)))
 
